@@ -445,7 +445,8 @@ def report_findings(prop, findings):
         path = write_replay(f, name)
         print("VIOLATION property=%s replay=%s" % (prop, path))
         if f.summary:
-            print("  " + f.summary.replace("\n", "\n  ")[:1200])
+            # (file names that are not UTF-8 are shown escaped: the output of a check is text)
+            print("  " + f.summary.replace("\n", "\n  ")[:1200].encode("utf-8", "backslashreplace").decode("utf-8"))
     return n_viol, n_known
 
 
